@@ -1,6 +1,6 @@
 #!/usr/bin/env python3
-"""Wire translator: Rust -> Gallina for the straight-line codec functions of
-crates/srtla-protocol (types.rs, parsers.rs, builders.rs).
+"""Wire translator: Rust -> Gallina for the codec functions of crates/srtla-protocol (types.rs,
+parsers.rs, builders.rs), and the return-value slice of a few methods that classify a frame (SLICE_FUNCS).
 
 On every run the CURRENT Rust source under $VERIF_REPO (default /repo) is parsed (the
 tokenizer/parser of gen_leaf.py, extended with hex literals, indexing, ranges, array
@@ -29,12 +29,21 @@ panic in Rust is sequenced exactly in Rust evaluation order:
   v.f (v : S)            nth k v 0
 
   while c { body }       a fuelled Fixpoint leaf_wire_<fn>_loop<k> over the `let mut` locals the body
-                         assigns (in declaration order; `break` = return the state), called with
-                         fuel S (length of the byte-slice parameters); out of fuel is `Fuel`
+                         (nested loops included) assigns, in declaration order; `break` = return the
+                         state of the innermost loop; a nested loop is its own Fixpoint, emitted first
+                         and called as a bind.  Initial fuel (a guess, never trusted -- out of fuel is
+                         `Fuel` and the lemma must show it is not reached): a conjunct `v.len() < K`
+                         gives S (K - len v), otherwise S (length of the byte-slice parameters)
+  for (i, &x) in v.iter().enumerate() { body }     a Fixpoint by structural recursion on v, i from 0
   v.push(e)              v' := v ++ [e]        SmallVec::new() / Vec::new(): []
+  vec![c; n]             repeat c (Z.to_nat n)           SmallVec::from_vec(v): v
+  d[i] = v               d' <- splice d i (i+1) [v] ;; ...
+  a &= b, a |= b         a := Z.land a b / Z.lor a b     a.wrapping_add(b): (a + b) mod 2^w
+  match e { Some(C) => .. None => .. _ => .. }     e : Option<int>; arms in order, `_` last
+  E::V (fieldless enum)  the constant E_V : Z (declaration index)
 
 `+ - *` between compile-time constants (literals, consts, unrolled loop variables) must stay in
-range; `+` / `-` on non-constant unsigned operands are CHECKED (`if a + b <? 2^w then .. else
+range; `+` / `-` / `*` on non-constant unsigned operands are CHECKED (`if a + b <? 2^w then .. else
 Oob`: overflow is the debug-build panic; the equivalence lemma carries the length bound that
 rules it out, so the wrapping release semantics agrees).  Anything outside
 the subset makes the translator FAIL for that function (JSON summary, "failed"); check.py
